@@ -14,13 +14,17 @@ EXPLANATION = (
     "(dense: coefficient-major (n.d); isotropic: (n, d); block-diagonal: (d, n)), unflatten_array consumes exactly that layout and iterates over the "
     "coefficient axis, so unflatten(flatten(x)) returns the coefficients in their original order (symbolic round trip); from_example takes the leaf "
     "unravel from the first depth-one leaf; every Normal builds its flat mean with its own TreeFlatten and every mean / std / sample_tree goes through "
-    "unflatten_array of its own tree_flatten.  userfriendly_output prepends the initial state along a new leading time axis for t and u consistently."
+    "unflatten_array of its own tree_flatten.  userfriendly_output prepends the initial state along a new leading time axis for t and u consistently.  "
+    "For the jit/vmap clause one necessary condition is decided: every hand-written pytree registration (13 classes) is a round trip -- "
+    "unflatten(flatten(x)) rebuilds each attribute of x from the matching child / auxiliary entry, for the class that is registered -- since jit, vmap, "
+    "scan and while_loop hand every state object through exactly that pair."
 )
 LEVEL = "other"
 TECHNIQUE = "abstract interpretation over the AST with symbolic simplification (stack/index, transpose/transpose, ravel/unravel) for the round trip; symbolic shape inference for the layouts"
 LEVEL_TEXT = (
-    "The layout round trip is an identity on the source for every number of coefficients and every leaf structure.  jit == eager, vmap == loop and NaN-freedom of "
-    "non-selected branches are statements about XLA execution and are NOT claimed; permutation equivariance of the numerics is not claimed."
+    "The layout round trip is an identity on the source for every number of coefficients and every leaf structure; the pytree-registration round trip is an "
+    "identity on the source for every attribute value.  jit == eager, vmap == loop and NaN-freedom of non-selected branches are otherwise statements about XLA "
+    "execution and are NOT claimed; permutation equivariance of the numerics is not claimed."
 )
 LEVEL_NOTE = "Trusted: tree.ravel_pytree flattens leaves in list order and its unravel inverts it; np.stack(xs)[i] == xs[i]; (x.T).T == x."
 
@@ -105,6 +109,28 @@ def run(chk, S: Session):
         sd = it.getattr(rv2, "std", None)
         ok = isinstance(sd, T.Term) and sd.op == "mcall" and sd.args[0] is tfa and sd.args[1].startswith("unflatten_array") and "chol" in "".join(T.atoms_of(sd))
         r1.require(ok, f"{nname}.std", "unflatten_array of row norms of the Cholesky factor", f"{T.show(sd, 3)}", where, {"factorisation": fam})
+        # *_tree(u) evaluates its *_flat twin on u flattened in the class's own layout
+        for base in ("residual_whitened_rms", "logpdf"):
+            it3 = S.interp()
+            ncv3 = it3.class_value(f"{mod}.{nname}")
+            rv3 = it3.instantiate(ncv3, [mf, cf, tfa], {}, "<harness>")
+            seen_args = []
+
+            def flat_hook(itp, fn, a, kw, site, _s=seen_args):
+                _s.append(a)
+                return T.atom("flat_result")
+
+            it3.method_hooks[f"{mod}.{nname}.{base}_flat"] = flat_hook
+            u = T.atom("u_tree", array=False)
+            try:
+                res = call(it3, method(it3, rv3, f"{base}_tree"), u)
+            except AnalysisError as e:
+                r1.unknown(f"{nname}.{base}_tree", str(e), where, {"factorisation": fam})
+                continue
+            S.absorb(it3)
+            want_u = T.mk("tree.ravel", (u,)) if fam == "dense" else T.mk("mcall", (tfa, "flatten_tree", u))
+            ok = res is T.atom("flat_result") and len(seen_args) == 1 and len(seen_args[0]) == 2 and seen_args[0][0] is rv3 and seen_args[0][1] is want_u
+            r1.require(ok, f"{nname}.{base}_tree", f"{base}_flat(own-layout flatten of u) on the same variable", f"result {T.show(res, 3)}; flat twin called with {[T.show(x_, 3) for a_ in seen_args for x_ in a_[1:]]}", where, {"factorisation": fam})
         S.absorb(it)
     # ---------------- time axis
     for sname in ("solver", "solver_mle", "solver_dynamic"):
@@ -139,3 +165,100 @@ def run(chk, S: Session):
                 # smoother: marginals of the full posterior = computed marginals + seed at the end (N conditionals + 1)
                 oku = isinstance(u, T.Term) and u.op == "tree_concat" and len(u.args) == 2 and isinstance(u.args[1], T.Term) and u.args[1].op == "lift"
             r2.require(oku, f"{sname}.userfriendly_output u [{strategy}]", "initial / terminal state joined along the leading time axis (N + 1 entries)", f"{T.show(u, 3)}", SOLVERS, cfg)
+    pytree_registration_rules(chk, S)
+
+
+# ---------------------------------------------------------------------------
+def registrations(S):
+    """(class qualname, registering method name, where) for every module-level ``X.<method>()`` whose method registers a pytree node."""
+    import ast
+
+    out = []
+    for m in S.p.modules.values():
+        if ".backend" in m.name:
+            continue
+        for st in m.tree.body:
+            if isinstance(st, ast.Expr) and isinstance(st.value, ast.Call) and isinstance(st.value.func, ast.Attribute) and isinstance(st.value.func.value, ast.Name) and not st.value.args:
+                cname, meth = st.value.func.value.id, st.value.func.attr
+                ci = m.classes.get(cname)
+                if ci is None:
+                    continue
+                # the method may be inherited
+                owner = next((k for k in S.p.mro(ci) if meth in k.methods), None)
+                if owner is None:
+                    continue
+                node = owner.methods[meth]
+                if "register_pytree_node" in ast.unparse(node):
+                    out.append((ci.qualname, meth, f"{m.relpath}:{st.lineno}", node))
+    return out
+
+
+def pytree_registration_rules(chk, S):
+    """jit / vmap / scan hand every state object through flatten -> unflatten: that must be the identity on its attributes."""
+    import ast
+
+    from ..interp import _MISSING, RaiseSignal
+
+    r3 = chk.rule("R-C15-3", "pytree registrations: unflatten(flatten(x)) rebuilds every attribute of x (none dropped, swapped or defaulted), for the class that is registered", floor=20)
+    regs = registrations(S)
+    if len(regs) < 8:
+        raise AnalysisError(f"only {len(regs)} pytree registrations found; expected >= 8 (anchor changed)")
+    for qual, meth, where, node in regs:
+        name = qual.rsplit(".", 1)[1]
+        it = S.interp()
+        cv = it.class_value(qual)
+        got = []
+
+        def hook(itp, a, kw, site, _g=got):
+            _g.append(a)
+            return None
+
+        it.hooks["tree.register_pytree_node"] = hook
+        try:
+            it.call(it.getattr(cv, meth, "<harness>"), [], {}, "<harness>")
+        except (AnalysisError, RaiseSignal) as e:
+            r3.unknown(f"{name} registration", f"cannot interpret {meth}: {e}", where)
+            continue
+        if len(got) != 1 or len(got[0]) != 3:
+            r3.fail(f"{name} registration", f"{meth}() makes {len(got)} register_pytree_node calls", where)
+            continue
+        rcls, flatten, unflatten = got[0]
+        r3.require(getattr(rcls, "info", None) is cv.info, f"{name} registers itself", "the class on which the method is called", f"registers {getattr(getattr(rcls, 'info', None), 'qualname', rcls)}", where)
+        # an instance whose constructor arguments are distinct atoms
+        owner, init = it.find_method_node(cv, "__init__")
+        if init is None:
+            r3.unknown(f"{name} round trip", "no __init__", where)
+            continue
+        a = init.args
+        pos = [A(f"x.{p.arg}") for p in (a.posonlyargs + a.args)[1:]]
+        kws = {p.arg: A(f"x.{p.arg}") for p in a.kwonlyargs}
+        try:
+            x = it.instantiate(cv, pos, kws, "<harness>")
+            fl = it.call(flatten, [x], {}, "<harness>")
+            if not (isinstance(fl, tuple) and len(fl) == 2):
+                r3.fail(f"{name} flatten", f"flatten does not return (children, aux): {T.show(fl, 2)}", where)
+                continue
+            children, aux = fl
+            y = it.call(unflatten, [aux, children], {}, "<harness>")
+        except (AnalysisError, RaiseSignal) as e:
+            r3.unknown(f"{name} round trip", f"cannot interpret: {e}", where)
+            continue
+        S.absorb(it)
+        if not isinstance(y, Rec) or y.cls.info is not cv.info:
+            r3.fail(f"{name} round trip", f"unflatten returns {T.show(y, 2)}", where)
+            continue
+        for fname, v in x.fields.items():
+            w = y.fields.get(fname, _MISSING)
+            same = w is v or (not isinstance(v, T.Term) and w == v)
+            r3.require(bool(same), f"{name}.{fname} survives flatten/unflatten", "identity", f"attribute {fname}: {T.show(v, 2)} becomes {T.show(w, 2) if w is not _MISSING else 'missing'}", where)
+        # every constructor argument is carried either as a child or as auxiliary data
+        carried = set()
+        for part in (children, aux):
+            for t in T.subterms(part if isinstance(part, (list, tuple)) else [part]):
+                if isinstance(t, T.Term) and t.op == "atom":
+                    carried.add(T.atom_name(t))
+        for p in [*pos, *kws.values()]:
+            nm = T.atom_name(p)
+            used = any(p in list(T.subterms(v)) for v in x.fields.values() if isinstance(v, (T.Term, list, tuple)))
+            if used:
+                r3.require(nm in carried, f"{name} carries {nm.split('.', 1)[1]}", "in children or aux", f"constructor argument {nm} is neither a child nor auxiliary data", where)
